@@ -197,6 +197,10 @@ fn main() -> Result<()> {
         } else if sources.len() > 1 {
             return Err(XcpError::InvalidDestination("Multiple sources and destination is not a directory.").into());
         }
+    } else if sources.len() > 1 && opts.no_target_directory {
+        // Nor is a directory that is not to be copied *into*: every
+        // source would map onto the destination itself.
+        return Err(XcpError::InvalidDestination("Multiple sources and --no-target-directory.").into());
     }
 
     // Sanity-check all sources up-front
